@@ -108,6 +108,8 @@ def shards(tier):
             out.append(("edits2", i))
     for prod in range(6):
         out.append(("nest", prod))
+    for wi in range(len(WIDTH)):
+        out.append(("width", wi))
     for part in range(8):
         out.append(("requests", (part, 8)))
     for part in range(4):
@@ -312,6 +314,18 @@ def exception_menu():
     user("nodes_strs", nodes=["a", "b"])
     user("nodes_int", nodes=3)
     user("nodes_empty", nodes=[])
+    # systematic: every attribute the library reads by duck typing x a value menu, and source x positions pairs
+    # (positions are only looked at when a source is present)
+    vals = [("none", None), ("zero", 0), ("five", 5), ("float", 1.5), ("neg", -1), ("str", "abc"), ("ints", [1]), ("negs", [-1]), ("floats", [1.5]),
+            ("nones", [None]), ("tuples", [(1, 2)]), ("dict", {"a": 1}), ("set", {1}), ("node_tuple", (node,)), ("node_list", [node]), ("node", node),
+            ("source_obj", Source("{ x }")), ("bool_list", [True]), ("big", [10 ** 30])]
+    for attr in ("message", "extensions", "path", "locations", "positions", "source", "nodes"):
+        for vn, v in vals:
+            user(f"{attr}={vn}", **{attr: v})
+    for sn, sv in (("str", "abc"), ("two_lines", "abc\ndef"), ("obj", Source("{ x }")), ("empty", "")):
+        for vn, v in vals:
+            user(f"source={sn}+positions={vn}", source=sv, positions=v)
+    out.append(("GraphQLError+node_tuple", lambda: GraphQLError("gql", (node,))))
     out.append(("GraphQLError", lambda: GraphQLError("gql")))
     out.append(("GraphQLError+path", lambda: GraphQLError("gql", path=["other", 0])))
     out.append(("GraphQLError+node", lambda: GraphQLError("gql", node)))
@@ -681,6 +695,110 @@ NEST = [
 ]
 
 
+# --------------------------------------------------------------------------- width (flat documents, nesting depth 1-3)
+
+WIDTH_SDL = """
+type Query { f(l: [Int], o: In, i: Int): Int af: Int l: [Int] al: [Int] o: Obj }
+type Mutation { f: Int af: Int }
+type Obj { f: Int af: Int }
+input In { a: Int b: Int }
+"""
+WIDTH_NS = {"quick": [1, 2, 10, 100, 500, 1000, 1500, 2500], "thorough": [1, 2, 10, 100, 500, 1000, 1500, 2500, 5000, 10000]}
+# (name, document builder, uses the event loop)
+WIDTH = [
+    ("query_sync_fields", lambda n: "{ " + " ".join(f"a{i}: f" for i in range(n)) + " }", False),
+    ("query_async_fields", lambda n: "{ " + " ".join(f"a{i}: af" for i in range(n)) + " }", True),
+    ("mutation_sync_fields", lambda n: "mutation { " + " ".join(f"a{i}: f" for i in range(n)) + " }", False),
+    ("mutation_async_fields", lambda n: "mutation { " + " ".join(f"a{i}: af" for i in range(n)) + " }", True),
+    ("mutation_mixed_fields", lambda n: "mutation { " + " ".join(f"a{i}: {'af' if i % 2 else 'f'}" for i in range(n)) + " }", True),
+    ("nested_async_fields", lambda n: "{ o { " + " ".join(f"a{i}: af" for i in range(n)) + " } }", True),
+    ("list_items", lambda n: "{ l al }", True),
+    ("list_literal", lambda n: "{ f(l: [" + ", ".join("1" for _ in range(n)) + "]) }", False),
+    ("variables", lambda n: "query (" + " ".join(f"$v{i}: Int" for i in range(n)) + ") { " + " ".join(f"a{i}: f(i: $v{i})" for i in range(n)) + " }", False),
+    ("fragments_flat", lambda n: "{ " + " ".join(f"...F{i}" for i in range(n)) + " } " + " ".join(f"fragment F{i} on Query {{ a{i}: f }}" for i in range(n)), False),
+    ("fragment_chain", lambda n: "{ ...F0 } " + " ".join(f"fragment F{i} on Query {{ a{i}: f {'...F' + str(i + 1) if i + 1 < n else ''} }}" for i in range(n)), False),
+    ("inline_fragments_flat", lambda n: "{ " + " ".join(f"... on Query {{ a{i}: f }}" for i in range(n)) + " }", False),
+    ("operations", lambda n: " ".join(f"query Q{i} {{ f }}" for i in range(n)), False),
+    ("repeated_directives", lambda n: "{ f " + " ".join("@skip(if: false)" for _ in range(n)) + " }", False),
+    ("same_response_key", lambda n: "{ " + " ".join("f" for _ in range(n)) + " }", False),
+    ("conflicting_response_key", lambda n: "{ " + " ".join(f"x: f(i: {i})" for i in range(n)) + " }", False),
+    ("unknown_fields", lambda n: "{ " + " ".join(f"zz{i}" for i in range(n)) + " }", False),
+    ("long_name", lambda n: "{ " + "a" * (n * 10) + ": f }", False),
+]
+_width_schema = None
+
+
+def run_width(wi, tier, res, viol):
+    """Flat documents: the size of a request (fields, items, fragments ...) must not be limited by the interpreter's recursion limit.
+    A fragment chain is nesting in the fragment graph and is only checked up to the stated bound of 100."""
+    import asyncio
+    import inspect
+
+    from graphql import ExecutionResult, build_schema, graphql, graphql_sync
+
+    global _width_schema
+    name, make, use_loop = WIDTH[wi]
+    base = len(inspect.stack())
+    old = sys.getrecursionlimit()
+    sys.setrecursionlimit(1000 + base)
+    try:
+        for n in WIDTH_NS[tier]:
+            if name == "fragment_chain" and n > 100:
+                continue
+            if name in ("conflicting_response_key", "fragments_flat", "repeated_directives", "same_response_key") and n > 1000:
+                continue  # quadratic validation work, not a question of totality
+            if _width_schema is None:
+                _width_schema = build_schema(WIDTH_SDL)
+
+                async def af(_s, _i):
+                    await asyncio.sleep(0)
+                    return 1
+
+                for tname in ("Query", "Mutation", "Obj"):
+                    t = _width_schema.type_map[tname]
+                    t.fields["f"].resolve = lambda _s, _i, **_a: 1
+                    t.fields["af"].resolve = af
+            sch = _width_schema
+            items = list(range(n))
+
+            async def item(i):
+                await asyncio.sleep(0)
+                return i
+
+            sch.type_map["Query"].fields["l"].resolve = lambda _s, _i: items
+            sch.type_map["Query"].fields["al"].resolve = lambda _s, _i: [item(i) for i in items]
+            sch.type_map["Query"].fields["o"].resolve = lambda _s, _i: {}
+            src = make(n)
+            variables = {f"v{i}": i for i in range(n)} if name == "variables" else None
+            opname = f"Q{n - 1}" if name == "operations" else None
+            res.evaluations += 1
+            res.executions += 1
+            res.states += 1
+            res.transitions += 1
+            try:
+                if use_loop:
+                    r = asyncio.run(graphql(sch, src, variable_values=variables, operation_name=opname))
+                else:
+                    r = graphql_sync(sch, src, variable_values=variables, operation_name=opname)
+            except RecursionError:
+                viol(f"wide_request_recursion:{name}", src[:60], f"{name} with n={n}: RecursionError (nesting depth of the document <= 3)")
+                break
+            except Exception as x:  # noqa: BLE001
+                viol(f"wide_request_raises_{type(x).__name__}:{name}", src[:60], f"{name} with n={n}: {type(x).__name__}: {x}")
+                break
+            if not isinstance(r, ExecutionResult):
+                viol("request_returns_non_result", src[:60], f"{type(r).__name__}")
+                break
+            probs = respformat.check_result(r)
+            if probs:
+                viol("response_malformed:" + probs[0].split(":")[0][:40], src[:60], f"{name} n={n}: {probs[:2]}")
+                break
+            res.outcome(("width", name, n, r.data is None, bool(r.errors)))
+    finally:
+        sys.setrecursionlimit(old)
+    res.sample({"family": "width", "shape": name, "sizes": WIDTH_NS[tier]}, 1)
+
+
 def run_shard(shard, tier):
     res = Result()
     kind, arg = shard
@@ -754,6 +872,8 @@ def run_shard(shard, tier):
                                 return res
                             res.states += 1
                             res.transitions += 1
+    elif kind == "width":
+        run_width(arg, tier, res, viol)
     elif kind == "nest":
         name, make, how = NEST[arg]
         import inspect
